@@ -62,7 +62,7 @@ def pick_dis(r, chars, di_all, n_extra):
 # ------------------------------------------------------------------------------------------------------------------
 # environments
 
-ENV_KEYS = ["gpos_kern", "gpos_mark", "gpos_curs", "kern", "kerx", "trak", "morx", "gdef", "extents", "vmtx", "space"]
+ENV_KEYS = ["gpos_kern", "gpos_mark", "gpos_curs", "kern", "kerx", "kerx_cross", "trak", "morx", "gdef", "extents", "vmtx", "space"]
 
 # always present (every seed): each environment alone and trak next to each of the others
 FIXED_ENVS = [
@@ -86,6 +86,8 @@ FIXED_ENVS = [
     dict(morx=1, space=1),
     dict(extents=1, space=1, vmtx=1),
     dict(gpos_mark=1, extents=1, gdef=1, space=1),
+    dict(kerx_cross=1, space=1),            # permanent witness font of the class cross-stream-chain (see cross_stream_only)
+    dict(kerx_cross=1, trak=1, space=1),
 ]
 
 
@@ -93,6 +95,7 @@ def rand_env(r):
     e = {k: int(r.chance(1, 3)) for k in ENV_KEYS}
     e["space"] = int(r.chance(3, 4))
     e["trak"] = int(r.chance(1, 2))
+    e["kerx_cross"] = 0
     return e
 
 
@@ -195,6 +198,10 @@ def build_env_font(r, env, dis, trak_table=None):
         subs = _kerx.rand_subs(r, r.sample(anyg, min(6, len(anyg))), anyg, lo=1, hi=2, simple_only=True)
         tables["kerx"] = _kerx.kerx_table(subs)
         cross = any(s_["c"] for s_ in subs)
+    if env.get("kerx_cross"):
+        # one format 0 cross-stream subtable over the letters: A B -> -40, B C -> 25 (the second glyph is shifted across the line)
+        tables["kerx"] = _kerx.kerx_table([{"fmt": 0, "h": 1, "c": 1, "v": 0, "pairs": {(1, 2): -40, (2, 3): 25, (1, 1): 12}}])
+        cross = True
     if tables:
         rec["tables"] = tables
     return fontbuild.build(rec).hex(), {"di_gid": di_gid, "space": G_SPACE if env.get("space") else None, "cross": cross}
